@@ -9,6 +9,7 @@ C={
  "C01":(MC,"proto","explicit-state BFS over real consensus nodes (stateless replay + memoised local transitions), Byzantine menu","Agreement monitor on every reachable global state of 3 real honest nodes + 1 Byzantine member (all 4 placements), and of 4 / 3+crashed honest nodes: all delivery orders incl. duplication, reordering, arbitrary delay and loss; all timer interleavings within T; all Byzantine creations from the menu within K; up to round R.","5.1, 6 (C01)"),
  "C02":(MC,"proto+solo+chain","explicit-state search on the real node: every chain shape x learning order (chain), adversarial single-node BFS to a depth bound (solo), global BFS with crashed leaders (proto)","The delivered sequence of every node is checked to be a prefix-closed parent walk from genesis on every local transition explored.","5.1, 6 (C02)"),
  "C03":(MC,"proto+solo","explicit-state search on the real node: adversarial single-node BFS incl. unsafe TC-justified proposals (solo), global BFS with a Byzantine member (proto)","Every vote the node signs (on the wire or counted by itself as next leader) is checked against the four clauses of the property on every local transition explored.","5.1, 6 (C03)"),
+ "C04":(MC,"c04 (mutants on solo states)","exhaustive mutant delivery over explicit-state-explored local states of the real node: every invalid mutant of every valid message x every reached state, with behavioural non-interference follow-ups; verify() functions checked against an independent reference","For every state reached by a depth-2/3 adversarial BFS on one real node (equal and unequal stakes) and every invalid mutant (field / signature transplant / bit flip / certificate signer defects / spliced certificates): rejected by verify(), state and outputs unchanged, next reactions identical.","5.2, 6 (C04)"),
  "C05":(MC,"proto+solo+chain","explicit-state search on the real node (chain shapes incl. gaps at either position, solo, proto)","Every commit burst must be justified by a valid QC for a consecutive-round child of its head carried by a block processed in that very step.","5.1, 6 (C05)"),
  "C09":(MC,"enum+proto+solo","exhaustive enumeration of the leader function over committees x insertion orders x rounds; explicit-state search for votes/equivocation","Leader: every committee of size <=5/6 drawn from 7 keys, every insertion order, boundary rounds. Votes only for the round leader's correctly signed block and no two own proposals per round: monitors on every local transition explored by proto/solo.","5.4, 6 (C09)"),
  "C10":(MC,"proto+solo","explicit-state search on the real node (solo adversarial BFS, proto global BFS)","Round monotone, advanced only with a valid QC/TC of the previous round in hand, timeouts carry a QC at least as high as any voted/sent: monitors on every local transition explored.","5.1, 6 (C10)"),
@@ -45,6 +46,7 @@ m={"version":1,
   {"name":"solo","path":"harness/src/proto/solo.rs","serves_properties":["C02","C03","C05","C09","C10","C19"],"kind_free_text":"depth-bounded BFS over one real node's local states against an adversarial environment"},
   {"name":"chain","path":"harness/src/proto/chain.rs","serves_properties":["C02","C05"],"kind_free_text":"all chain shapes x learning orders on one real node"},
   {"name":"seq-aggregator","path":"harness/src/seq_aggregator.rs","serves_properties":["C19"],"kind_free_text":"fixpoint search on the real Aggregator vs reference model"},
+  {"name":"c04","path":"harness/src/c04.rs","serves_properties":["C04"],"kind_free_text":"mutant non-interference over explored local states of the real node"},
   {"name":"seq-full","path":"harness/src/seq_full.rs","serves_properties":["C08"],"kind_free_text":"bounded exhaustive event sequences on one real full node"},
   {"name":"seq-mempool","path":"harness/src/seq_mempool.rs","serves_properties":["C11","C12"],"kind_free_text":"bounded exhaustive event sequences on the real mempool stack vs reference batcher / quorum rule"},
   {"name":"seq-sender","path":"harness/src/seq_sender.rs","serves_properties":["C14"],"kind_free_text":"stateless bounded exploration of the real reliable sender vs reference channel"},
